@@ -254,7 +254,8 @@ func runC13(c *ctx) {
 
 // ---- C14 -----------------------------------------------------------------------
 
-var c14KeyExprs = []string{"g", "$string(k)", "s", "g & s", "\"lit\"", "k", "nothing", "$string(k % 2)", "id > 2 ? \"hi\" : \"lo\""}
+// literal keys that coincide with values the computed keys can take ("p", "x", "1", "hi"): literal/computed collisions in both orders
+var c14KeyExprs = []string{"g", "$string(k)", "s", "g & s", "\"lit\"", "k", "nothing", "$string(k % 2)", "id > 2 ? \"hi\" : \"lo\"", "\"p\"", "\"x\"", "\"1\"", "\"hi\"", "g", "s"}
 var c14ValExprs = []string{"id", "$count($)", "$sum(k)", "$.id", "[id]", "{\"n\": $count(id)}", "k", "nothing", "$", "$max(id)"}
 
 func groupDoc(r *rng, n int) []interface{} {
@@ -316,6 +317,23 @@ func runC14(c *ctx) {
 		"$merge([])", "$keys({})", "$spread({})", "$each({}, function($v){$v})", "$sift({}, function($v){true})", "$type($lookup({}, \"a\"))",
 		"$exists($lookup($, \"zz\"))", "$keys(\"str\")", "$merge([1])", "$each(1, function($v){$v})", "$sift($, $boolean)", "$each($, $string)^($)",
 	}
+	// object functions over arrays of objects (names repeated in non-adjacent members, later members overriding earlier ones)
+	aprogs := []string{"$keys($)^($)", "$count($keys($))", "$count($spread($))", "$merge($)", "$spread($)^($keys($))", "$keys($) ~> $sort()", "$keys([$, $])^($)",
+		"$each($merge($), function($v, $k){$k})^($)", "$lookup($, \"a\")", "$.a", "$merge($).a", "$count($keys($merge($))) = $count($keys($))"}
+	for rep := 0; rep < c.scale(1500, 30000) && !c.tooMany(); rep++ {
+		k := 2 + r.intn(5)
+		arr := make([]interface{}, k)
+		for i := range arr {
+			o := map[string]interface{}{}
+			for _, nm := range []string{"a", "b", "c", "d"} {
+				if r.chance(2, 5) {
+					o[nm] = float64(i*10 + r.intn(3))
+				}
+			}
+			arr[i] = o
+		}
+		c.diffEval(aprogs[r.intn(len(aprogs))], arr, "objfn-array")
+	}
 	for rep := 0; rep < c.scale(2500, 50000) && !c.tooMany(); rep++ {
 		o := randObj(r, 2)
 		p := fprogs[r.intn(len(fprogs))]
@@ -328,7 +346,9 @@ func runC14(c *ctx) {
 
 // ---- C15 -----------------------------------------------------------------------
 
-var c15Domain = []interface{}{1.0, 2.0, "1", "a", true, false, []interface{}{1.0}, []interface{}{"1"}, map[string]interface{}{"a": 1.0}, map[string]interface{}{"a": "1"}, []interface{}{}, map[string]interface{}{}}
+var c15Domain = []interface{}{1.0, 2.0, "1", "a", true, false, []interface{}{1.0}, []interface{}{"1"}, map[string]interface{}{"a": 1.0}, map[string]interface{}{"a": "1"}, []interface{}{}, map[string]interface{}{},
+	// strings that spell the JSON text of other members
+	"[1]", "{\"a\":1}", "[]", "{}", "true", "null"}
 
 var c15Fns = []string{
 	"function($v){$v}", "function($v, $i){$i}", "function($v, $i, $a){$count($a)}", "function(){1}", "function($v){nothing}",
@@ -343,9 +363,9 @@ var c15Reducers = []string{
 func runC15(c *ctx) {
 	c.rep.Rule = "arrays up to length 8 over numbers, strings, booleans, nested arrays and objects with duplicates and value-equal-but-kind-different members, " +
 		"scalars in array position, missing arguments; function arguments that are lambdas of arity 0..3, built-ins, partials and chains; " +
-		"exhaustive for arrays up to length 3 over a 5-value domain for $distinct/$reverse/$count/$append/$zip; $shuffle checked as a permutation"
+		"exhaustive for arrays up to length 3 over a 7-value domain (incl. strings spelling the JSON text of container members) for $distinct/$reverse/$count/$append/$zip; $shuffle checked as a permutation"
 	r := c.rng.fork()
-	dom5 := []interface{}{1.0, "1", true, []interface{}{1.0}, map[string]interface{}{"a": 1.0}}
+	dom5 := []interface{}{1.0, "1", true, []interface{}{1.0}, map[string]interface{}{"a": 1.0}, "[1]", "{\"a\":1}"}
 	var arrays [][]interface{}
 	var build func(prefix []interface{}, n int)
 	build = func(prefix []interface{}, n int) {
